@@ -1007,6 +1007,16 @@ class Z3Tr:
             return Val.N(f(v0)), vs[0][1]
         app = uf(name, len(xs))(*xs)
         self.uf_apps.append((name, list(xs), app))
+        # exact points that constant folding and the divisor test rely on (Python's math agrees exactly at these arguments)
+        if len(xs) == 1:
+            zero_at = {'sqrt': 0, 'sin': 0, 'tan': 0, 'asin': 0, 'atan': 0, 'log': 1, 'acos': 1}.get(name)
+            if zero_at is not None:
+                self.assumptions.append(z3.Implies(xs[0] == zero_at, app == 0))
+            if name == 'sqrt':
+                self.assumptions.append(z3.Implies(xs[0] >= 0, z3.And(app >= 0, z3.Implies(app == 0, xs[0] == 0))))
+                self.assumptions.append(z3.Implies(xs[0] == 1, app == 1))
+            if name == 'cos':
+                self.assumptions.append(z3.Implies(xs[0] == 0, app == 1))
         return Val.N(app), d
 
 
